@@ -242,6 +242,7 @@ class Engine:
             self.alternatives = []
             self.frames = []
             self.guards = []
+            self.exc_stack = []
             self.fresh_n = 0
             self.fuel = self.FUEL
             old = poly.set_overflow_hook(self._overflow)
@@ -424,8 +425,11 @@ class Engine:
         elif isinstance(s, ast.Continue):
             raise _Continue()
         elif isinstance(s, ast.Raise):
-            exc = self.ev(s.exc) if s.exc is not None else None
-            raise _Raise(exc)
+            if s.exc is None:
+                if not self.exc_stack:
+                    raise Refuse('bare raise outside an except block')
+                raise _Raise(self.exc_stack[-1])
+            raise _Raise(self.ev(s.exc))
         elif isinstance(s, ast.Assert):
             self.oblige('assert', truth(self.ev(s.test)), s)
         elif isinstance(s, ast.Delete):
@@ -466,7 +470,11 @@ class Engine:
                 if match:
                     if h.name:
                         self.frames[-1].loc[h.name] = r.exc
-                    self.exec_block(h.body)
+                    self.exc_stack.append(r.exc)
+                    try:
+                        self.exec_block(h.body)
+                    finally:
+                        self.exc_stack.pop()
                     break
             else:
                 raise
